@@ -86,7 +86,7 @@ Definition op_class (o : op) : nat :=
   | NewProvider _ _ [] => 1 | NewProvider _ _ _ => 2 | NewLegacyServer _ _ => 3
   | NewRPOIDC _ _ _ _ => 4 | NewRPOAuth _ _ _ => 5 | NewRS _ _ _ _ => 6 | NewTE _ _ _ _ => 7 | NewKeySet _ _ _ => 8
   | ProvReq _ _ _ => 9 | DevGetAudience _ => 10 | RPCall _ _ _ => 11 | RSIntrospect _ _ => 12
-  | TEExchange _ _ => 13 | KSVerify _ _ => 14 | ClientCall _ _ => 15 | HandlerReq _ _ _ _ => 16 | FindKey _ => 17
+  | TEExchange _ _ => 13 | KSVerify _ _ => 14 | ClientCall _ _ => 15 | HandlerReq _ _ _ _ => 16 | FindKey _ => 17 | ClientReq _ _ _ _ _ => 18 | HelperCall _ _ => 19
   end.
 Definition path (i : input) (o : observed) : nat :=
   match i with
